@@ -131,14 +131,15 @@ pub fn generate(input: TokenStream) -> TokenStream {
                     );
                 }
 
-                let ty = &mut fields
-                    .unnamed
-                    .first_mut()
-                    .expect("Already checked len; qed")
-                    .ty;
-                let ty = parser.get_type(ty);
+                match fields.unnamed.first_mut() {
+                    Some(field) => {
+                        let ty = parser.get_type(&mut field.ty);
 
-                VariantKind::Value(var_ident, ty)
+                        VariantKind::Value(var_ident, ty)
+                    }
+                    // `Variant()`: the error has been reported above
+                    None => VariantKind::Skip,
+                }
             }
             Fields::Named(fields) => {
                 parser.err("Logos doesn't support named fields yet.", fields.span());
